@@ -191,3 +191,14 @@ Fixpoint strs_eqb (a b : list string) : bool :=
 Definition restore_case_ok (c : list string * string * option string * bool * list string * list string) : bool :=
   let '(objdims, gname, gdim, nr, resultdims, impl) := c in
   strs_eqb (restore_dim_order objdims gname gdim nr resultdims) impl.
+
+(* ---- _broadcast_size_one_dims cases (K2): axis names of the real result, recovered from distinct dim lengths ---- *)
+Fixpoint ostrs_eqb (a b : list (option string)) : bool :=
+  match a, b with
+  | [], [] => true
+  | Some x :: a', Some y :: b' => String.eqb x y && ostrs_eqb a' b'
+  | None :: a', None :: b' => ostrs_eqb a' b'
+  | _, _ => false
+  end.
+Definition broadcast_case_ok (c : list string * list string * list (option string)) : bool :=
+  let '(core, bdims, impl) := c in ostrs_eqb (broadcast_result core bdims) impl.
